@@ -227,7 +227,7 @@ def inFragEq : List ANode → Bool
   | c :: cs => (if c.kind == .math then inFragM c else inFrag c) && inFragEq cs
 /-- The covered fragment for math mode. -/
 def inFragM : ANode → Bool
-  | .leaf k t a => ANode.tokensAreLeaves (.leaf k t a) && (!k.isExpr || k.isFragLeaf || (k == .parbreak && !a.disabled) || k == .none_ || k == .auto_ || k == .math) && (!k.isInnerKind || ((k == .markup || k == .code || k == .importItems || k == .math) && t == ""))
+  | .leaf k t a => ANode.tokensAreLeaves (.leaf k t a) && (!k.isExpr || k.isFragLeaf || (k == .parbreak && !a.disabled) || k == .none_ || k == .auto_ || k == .math || k == .array) && (!k.isInnerKind || ((k == .markup || k == .code || k == .importItems || k == .math || k == .array) && t == ""))
   | .inner k cs _ =>
     if k == .funcCall then mathCallShapeB cs && inFragMCallL cs else
     (k.isMathFlow || k == .math || (k == .mathPrimes && cs.all (fun c => c.kind == .prime)) ||
@@ -1905,6 +1905,13 @@ theorem convMarkup_frag (e : Env) (r : Rec) (hr : RecOK r Q) (ctx : Ctx) (hctx :
     · exact Or.inr (Or.inr (Or.inr (Or.inl h)))
     · exact Or.inr (Or.inr (Or.inr (Or.inr h)))
 
+/-- An empty row of math arguments arrives as a leaf (`mat(n: 1; 2)` has one before the `;`). -/
+theorem specAll_empty_array_leaf (a : Attrs) : specAll (.leaf .array "" a) = {} := by
+  apply Streams.ext' <;> simp [specAll, specToks, specCmts, specProse, specLit, specVerb, isCommentKind, Pretty.keepOf]
+
+theorem convArray_leaf_eq (e : Env) (r : Rec) (ctx : Ctx) (t : String) (a : Attrs) :
+    convArray e r ctx (.leaf .array t a) = convArray e r ctx (.inner .array [] a) := rfl
+
 /-- One level of the knot: the expression entry point in math mode. -/
 theorem convExprM_frag (e : Env) (r : Rec) (hr : RecOK r Q) (hrM : RecOKM r QM) (ctx : Ctx) (hm : ctx.mode = .math)
     (n : ANode) (hx : isExpr n = true) (hq : inFragM n = true) :
@@ -1929,8 +1936,29 @@ theorem convExprM_frag (e : Env) (r : Rec) (hr : RecOK r Q) (hrM : RecOKM r QM) 
         apply Streams.ext' <;> simp [tagS, Pretty.charsOf, ANode.intoText]
       · show Post (r.math ctx _) _
         exact hrM.math ctx _ hm rfl hq
+    by_cases hak : k = .array
+    · -- an empty row
+      subst hak
+      have ht : t = "" := by
+        have h := hq
+        simp [inFragM, Kind.isInnerKind] at h
+        exact h.2
+      subst ht
+      rw [specAll_empty_array_leaf]
+      split
+      · refine Post.pure ?_
+        refine (Carries.mkText e.wd .verbatim _).congr ?_
+        apply Streams.ext' <;> simp [tagS, Pretty.charsOf, ANode.intoText]
+      · rename_i hd
+        have hd' : a.disabled = false := by simpa [ANode.attrs] using hd
+        show Post (convArray e r ctx _) _
+        rw [convArray_leaf_eq]
+        have := convArrayMH_carries e r hr hrM ctx hm [] a hd' rfl (by trivial) (fun x hx => by cases hx) rfl
+        rw [specAll_inner .array [] a (by simp [isVerbatimNode, hd']) (by decide)] at this
+        exact this
     have hq' : inFrag (.leaf k t a) = true := by
-      simp only [inFragM, Bool.and_eq_true, Bool.or_eq_true] at hq
+      have hak' : (k == .array) = false := by simpa using hak
+      simp only [inFragM, Bool.and_eq_true, Bool.or_eq_true, hak', Bool.or_false, or_false] at hq
       simp only [inFrag, Bool.and_eq_true, Bool.or_eq_true]
       have hmk' : (k == .math) = false := by simpa using hmk
       refine ⟨⟨hq.1.1, ?_⟩, ?_⟩
